@@ -55,6 +55,11 @@ Proof.
   rewrite filter_flat_map. destruct (str_eqb tg t); reflexivity.
 Qed.
 
+Lemma iter_skip_unfold skip t a x cs l :
+  iter_skip skip (Elem t a x cs l)
+  = flat_map (fun c => if tag_is skip c then [] else c :: iter_skip skip c) cs.
+Proof. cbn [iter_skip]. reflexivity. Qed.
+
 Lemma odf_text_leaf pint skip t a x l : odf_text pint skip (Elem t a x [] l) = x.
 Proof. cbn [odf_text]. apply app_nil_r. Qed.
 
@@ -64,6 +69,7 @@ Proof. intro H. unfold findall. cbn [xchildren]. apply filter_all, H. Qed.
 
 (* ------------------------------------------------------------------ closed-constant facts *)
 Lemma ne_cell_p : str_eqb TABLE_CELL TEXT_P = false.            Proof. vm_compute; reflexivity. Qed.
+Lemma ne_p_ann : str_eqb TEXT_P OFFICE_ANNOTATION = false.   Proof. vm_compute; reflexivity. Qed.
 Lemma ne_vt_rep : str_eqb ATTR_VALUE_TYPE ATTR_REPEAT_COLS = false.    Proof. vm_compute; reflexivity. Qed.
 Lemma ne_v_rep : str_eqb ATTR_VALUE ATTR_REPEAT_COLS = false.          Proof. vm_compute; reflexivity. Qed.
 Lemma ne_dv_rep : str_eqb ATTR_DATE_VALUE ATTR_REPEAT_COLS = false.    Proof. vm_compute; reflexivity. Qed.
@@ -227,15 +233,51 @@ Example rle_nul_counterexample :
      <> map (ocell_spec (fun _ => FValErr)) r.
 Proof. split; vm_compute; discriminate. Qed.
 
+(* ------------------------------------------------------------------ paragraphs of a cell (comments skipped) *)
+Lemma para_step p :
+  (if tag_is OFFICE_ANNOTATION (ET TEXT_P p) then [] else ET TEXT_P p :: iter_skip OFFICE_ANNOTATION (ET TEXT_P p))
+  = [ET TEXT_P p].
+Proof. unfold tag_is, ET. cbn [xtag iter_skip]. rewrite ne_p_ann. reflexivity. Qed.
+
+Lemma para_tag p : tag_is TEXT_P (ET TEXT_P p) = true.
+Proof. unfold tag_is, ET. cbn [xtag]. apply str_eqb_refl. Qed.
+
+Lemma cell_paras_r tg attrs x l c :
+  ods_cell_paras (Elem tg attrs x (ods_r_cell_children c) l) = ods_r_cell_children c.
+Proof.
+  unfold ods_cell_paras. rewrite iter_skip_unfold.
+  destruct c as [|ps|a|i|i|b]; try reflexivity.
+  cbn [ods_r_cell_children]. induction ps as [|p ps IH]; [reflexivity|].
+  cbn [map flat_map]. rewrite para_step. cbn [app filter]. rewrite para_tag, IH. reflexivity.
+Qed.
+
+(* a cell comment (office:annotation, whatever it contains) does not reach the value *)
+Theorem ods_cell_comment_skipped : forall pint pflt aa ax acs al t,
+  ods_cell_value pint pflt
+    (Elem TABLE_CELL [(ATTR_VALUE_TYPE, s "string")] []
+          [Elem OFFICE_ANNOTATION aa ax acs al; ET TEXT_P t] [])
+  = Some (if is_nil t then VNone else VStr t).
+Proof.
+  intros pint pflt aa ax acs al t.
+  assert (Hp : ods_cell_paras (Elem TABLE_CELL [(ATTR_VALUE_TYPE, s "string")] []
+                                    [Elem OFFICE_ANNOTATION aa ax acs al; ET TEXT_P t] [])
+               = [ET TEXT_P t]).
+  { unfold ods_cell_paras. rewrite iter_skip_unfold. cbn [flat_map].
+    replace (tag_is OFFICE_ANNOTATION (Elem OFFICE_ANNOTATION aa ax acs al)) with true
+      by (unfold tag_is; cbn [xtag]; symmetry; apply str_eqb_refl).
+    rewrite para_step.
+    cbn [app filter]. rewrite para_tag. reflexivity. }
+  cbv beta zeta delta [ods_cell_value]. rewrite Hp. cbn [map join].
+  unfold ET. rewrite odf_text_leaf.
+  destruct t; vm_compute; reflexivity.
+Qed.
+
 Section Ods.
   Variable pint : int_oracle.
   Variable pflt : float_oracle.
   (* int(str(n)) == n *)
   Hypothesis pint_dec : forall n : N, pint (dec_N n) = Some (Z.of_N n).
 
-  Definition ocell_ok (c : ocell) : bool :=
-    match c with ONum a => match pflt a with FOvf => false | _ => true end | _ => true end.
-  Definition grid_ok (g : list (list ocell)) : bool := forallb (forallb ocell_ok) g.
   Definition last_row_has_data (g : list (list ocell)) : bool :=
     existsb (fun v => negb (is_none v)) (last (ogrid_spec pflt g) []).
   Definition last_col_has_data (c : nat) (g : list (list ocell)) : bool :=
@@ -250,23 +292,22 @@ Section Ods.
   (* ---------------- one cell *)
   Lemma cell_text attrs c :
     join NL (map (odf_text pint [OFFICE_ANNOTATION])
-                 (iter_tag TEXT_P (Elem TABLE_CELL attrs [] (ods_r_cell_children c) [])))
+                 (ods_cell_paras (Elem TABLE_CELL attrs [] (ods_r_cell_children c) [])))
     = match c with OStr ps => join NL ps | _ => [] end.
   Proof.
-    rewrite iter_tag_unfold, ne_cell_p. cbn [app].
+    rewrite cell_paras_r.
     destruct c as [|ps|a|i|i|b]; try reflexivity.
     cbn [ods_r_cell_children]. f_equal.
     induction ps as [|p ps IH]; [reflexivity|].
-    cbn [map flat_map]. unfold ET at 1. rewrite iter_tag_unfold, str_eqb_refl.
-    cbn [flat_map app map]. rewrite odf_text_leaf, IH. reflexivity.
+    cbn [map]. unfold ET at 1. rewrite odf_text_leaf, IH. reflexivity.
   Qed.
 
   Lemma cell_value_gen pre c :
-    pre_ok pre -> ocell_ok c = true ->
+    pre_ok pre ->
     ods_cell_value pint pflt (Elem TABLE_CELL (pre ++ ods_r_cell_attrs c) [] (ods_r_cell_children c) [])
     = Some (ocell_spec pflt c).
   Proof.
-    intros Hp Hok. cbv beta zeta delta [ods_cell_value xget]. cbn [xattrs].
+    intros Hp. cbv beta zeta delta [ods_cell_value xget]. cbn [xattrs].
     rewrite cell_text.
     rewrite !(assoc_pre ATTR_VALUE_TYPE pre _ Hp ne_vt_rep), !(assoc_pre ATTR_VALUE pre _ Hp ne_v_rep),
             !(assoc_pre ATTR_DATE_VALUE pre _ Hp ne_dv_rep), !(assoc_pre ATTR_TIME_VALUE pre _ Hp ne_tv_rep),
@@ -275,15 +316,15 @@ Section Ods.
     - vm_compute; reflexivity.
     - cbn [ocell_spec]. generalize (join NL ps). intros [|ch t]; vm_compute; reflexivity.
     - destruct a as [|n a]; [vm_compute; reflexivity|].
-      vm_compute in Hok. vm_compute. destruct (pflt (n :: a)); try reflexivity; discriminate.
+      vm_compute. destruct (pflt (n :: a)); reflexivity.
     - destruct i; vm_compute; reflexivity.
     - destruct i; vm_compute; reflexivity.
     - destruct b; vm_compute; reflexivity.
   Qed.
 
   Lemma cell_value c n :
-    ocell_ok c = true -> ods_cell_value pint pflt (ods_r_cell c n) = Some (ocell_spec pflt c).
-  Proof. intro H. unfold ods_r_cell. apply cell_value_gen; [apply pre_ok_n | exact H]. Qed.
+    ods_cell_value pint pflt (ods_r_cell c n) = Some (ocell_spec pflt c).
+  Proof. unfold ods_r_cell. apply cell_value_gen, pre_ok_n. Qed.
 
   Lemma xget_rep c n : xget ATTR_REPEAT_COLS (s "1") (ods_r_cell c n) = dec_N (N.of_nat n).
   Proof.
@@ -299,13 +340,12 @@ Section Ods.
 
   (* ---------------- one row *)
   Lemma row_step c n rest vs :
-    ocell_ok c = true ->
     negb (is_none (ocell_spec pflt c)) || Nat.leb n 100 = true ->
     ods_row_values pint pflt rest = Some vs ->
     ods_row_values pint pflt (ods_r_cell c n :: rest) = Some (repeat_list (ocell_spec pflt c) n ++ vs).
   Proof.
-    intros Hok Hrun Hrest. cbn [ods_row_values].
-    rewrite xget_rep, pint_dec, (cell_value c n Hok), Hrest.
+    intros Hrun Hrest. cbn [ods_row_values].
+    rewrite xget_rep, pint_dec, (cell_value c n), Hrest.
     rewrite nat_N_Z, Nat2Z.id.
     replace (is_none (ocell_spec pflt c) && (100 <? Z.of_nat n)%Z) with false; [reflexivity|].
     symmetry. apply orb_true_iff in Hrun as [H|H].
@@ -314,22 +354,19 @@ Section Ods.
   Qed.
 
   Lemma row_values_plain r :
-    forallb ocell_ok r = true ->
     ods_row_values pint pflt (map (fun c => ods_r_cell c 1) r) = Some (map (ocell_spec pflt) r).
   Proof.
-    induction r as [|c r IH]; [reflexivity|]. cbn [forallb map]. intro H.
-    apply andb_true_iff in H as [H1 H2].
-    rewrite (row_step c 1 _ _ H1 (orb_true_r _) (IH H2)). reflexivity.
+    induction r as [|c r IH]; [reflexivity|]. cbn [map].
+    rewrite (row_step c 1 _ _ (orb_true_r _) IH). reflexivity.
   Qed.
 
   Lemma row_values_rle (l : list (ocell * nat)) :
-    forallb (fun cn => ocell_ok (fst cn)) l = true ->
     forallb (fun cn => negb (is_none (ocell_spec pflt (fst cn))) || Nat.leb (snd cn) 100) l = true ->
     ods_row_values pint pflt (map (fun cn => ods_r_cell (fst cn) (snd cn)) l)
     = Some (flat_map (fun cn => repeat_list (ocell_spec pflt (fst cn)) (snd cn)) l).
   Proof.
-    induction l as [|[c n] l IH]; [reflexivity|]. cbn [forallb map flat_map fst snd]. intros H K.
-    apply andb_true_iff in H as [H1 H2]. apply andb_true_iff in K as [K1 K2].
+    induction l as [|[c n] l IH]; [reflexivity|]. cbn [forallb map flat_map fst snd]. intros K.
+    apply andb_true_iff in K as [K1 K2].
     apply row_step; auto.
   Qed.
 
@@ -378,11 +415,11 @@ Section Ods.
 
   (* ---------------- Theorem 1 *)
   Theorem ods_plain_roundtrip : forall g c,
-    (1 <= c)%nat -> g <> [] -> grid_ok g = true -> rect c g = true ->
+    (1 <= c)%nat -> g <> [] -> rect c g = true ->
     last_row_has_data g = true -> last_col_has_data c g = true ->
     ods_sheet pint pflt (ods_r_sheet_plain g) = Some (ogrid_spec pflt g).
   Proof.
-    intros g c Hc Hne Hok Hrect Hlr Hlc.
+    intros g c Hc Hne Hrect Hlr Hlc.
     apply (sheet_of_raw _ g c); auto.
     change (ods_r_sheet_plain g)
       with (E TABLE_TABLE (map (fun r => E TABLE_ROW ((fun r => map (fun c => ods_r_cell c 1) r) r)) g)).
@@ -390,17 +427,16 @@ Section Ods.
     - intros r _. cbv beta. induction r as [|x r IH]; [reflexivity|].
       cbn [map forallb]. rewrite cell_tag, IH. reflexivity.
     - intros r Hin. cbv beta. apply row_values_plain.
-      unfold grid_ok in Hok. rewrite forallb_forall in Hok. apply Hok, Hin.
   Qed.
 
   (* ---------------- Theorem 3 *)
   Theorem ods_rle_roundtrip : forall g c,
-    (1 <= c)%nat -> g <> [] -> grid_ok g = true -> rect c g = true ->
+    (1 <= c)%nat -> g <> [] -> rect c g = true ->
     last_row_has_data g = true -> last_col_has_data c g = true ->
     grid_nul_free g = true -> no_long_empty_runs g = true ->
     ods_sheet pint pflt (ods_r_sheet_rle g) = Some (ogrid_spec pflt g).
   Proof.
-    intros g c Hc Hne Hok Hrect Hlr Hlc Hnul Hruns.
+    intros g c Hc Hne Hrect Hlr Hlc Hnul Hruns.
     apply (sheet_of_raw _ g c); auto.
     change (ods_r_sheet_rle g)
       with (E TABLE_TABLE (map (fun r => E TABLE_ROW ((fun r => map (fun cn => ods_r_cell (fst cn) (snd cn)) (rle r)) r)) g)).
@@ -408,13 +444,10 @@ Section Ods.
     - intros r _. cbv beta. induction (rle r) as [|x l IH]; [reflexivity|].
       cbn [map forallb]. rewrite cell_tag, IH. reflexivity.
     - intros r Hin. cbv beta.
-      unfold grid_ok in Hok. rewrite forallb_forall in Hok.
       unfold grid_nul_free in Hnul. rewrite forallb_forall in Hnul.
       unfold no_long_empty_runs in Hruns. rewrite forallb_forall in Hruns.
       rewrite row_values_rle.
       + rewrite rle_expand_spec by (apply Hnul, Hin). reflexivity.
-      + apply forallb_forall. intros [c' n] Hcn. cbn [fst].
-        specialize (Hok r Hin). rewrite forallb_forall in Hok. apply Hok, (rle_In r c' n Hcn).
       + apply Hruns, Hin.
   Qed.
 
@@ -446,7 +479,7 @@ Definition ods_rle_roundtrip0 := ods_rle_roundtrip pint0 pflt0 pint0_dec.
 Definition gw : list (list ocell) := [ OStr [s "A"] :: repeat_list OEmpty 101 ++ [OStr [s "B"]] ].
 
 Theorem ods_repeat_cap_refuted : exists g c,
-  (1 <= c)%nat /\ g <> [] /\ grid_ok pflt0 g = true /\ rect c g = true /\
+  (1 <= c)%nat /\ g <> [] /\ rect c g = true /\
   last_row_has_data pflt0 g = true /\ last_col_has_data pflt0 c g = true /\
   grid_nul_free g = true /\
   ods_sheet pint0 pflt0 (ods_r_sheet_plain g) = Some (ogrid_spec pflt0 g) /\
@@ -494,11 +527,9 @@ Definition g22 : list (list ocell) :=
   [ [OStr [s "a"; s "b"]; ONum (s "1.5")];
     [OEmpty;              OBool true] ].
 Definition pflt1 : float_oracle := fun x => if str_eqb x (s "1.5") then FFlt (s "1.5") else FValErr.
-Lemma pflt1_g22_ok : grid_ok pflt1 g22 = true.                 Proof. vm_compute; reflexivity. Qed.
 
 Example nonvac_width : (1 <= 2)%nat.                            Proof. lia. Qed.
 Example nonvac_nonempty : g22 <> [].                            Proof. discriminate. Qed.
-Example nonvac_grid_ok : grid_ok pflt0 g22 = true.              Proof. vm_compute; reflexivity. Qed.
 Example nonvac_rect : rect 2 g22 = true.                        Proof. vm_compute; reflexivity. Qed.
 Example nonvac_last_row : last_row_has_data pflt0 g22 = true.   Proof. vm_compute; reflexivity. Qed.
 Example nonvac_last_col : last_col_has_data pflt0 2 g22 = true. Proof. vm_compute; reflexivity. Qed.
@@ -513,7 +544,6 @@ Example nonvac_rle :
   = Some [[VStr (s "a" ++ NL ++ s "b"); VFlt (s "1.5")]; [VNone; VBool true]].
 Proof. vm_compute; reflexivity. Qed.
 (* the hypotheses can fail too (they are real conditions) *)
-Example nonvac_grid_ok_false : grid_ok (fun _ => FOvf) g22 = false.          Proof. vm_compute; reflexivity. Qed.
 Example nonvac_rect_false : rect 2 [[OEmpty]; [OEmpty; OEmpty]] = false.     Proof. vm_compute; reflexivity. Qed.
 Example nonvac_last_row_false : last_row_has_data pflt0 [[OBool true]; [OEmpty]] = false. Proof. vm_compute; reflexivity. Qed.
 Example nonvac_last_col_false : last_col_has_data pflt0 2 [[OBool true; OEmpty]] = false. Proof. vm_compute; reflexivity. Qed.
@@ -524,9 +554,17 @@ Proof. vm_compute; reflexivity. Qed.
 Example trailing_col_trimmed :
   ods_sheet pint0 pflt0 (ods_r_sheet_plain [[OBool true; OEmpty]]) = Some [[VBool true]].
 Proof. vm_compute; reflexivity. Qed.
-(* inf in office:value escapes as OverflowError (why grid_ok is needed) *)
-Example ovf_escapes :
-  ods_sheet pint0 (fun _ => FOvf) (ods_r_sheet_plain [[ONum (s "inf")]]) = None.
+(* inf in office:value: OverflowError is caught, the attribute text is kept (no grid_ok hypothesis any more) *)
+Example ovf_kept_as_text :
+  ods_sheet pint0 (fun _ => FOvf) (ods_r_sheet_plain [[ONum (s "inf")]]) = Some [[VStr (s "inf")]].
+Proof. vm_compute; reflexivity. Qed.
+
+(* a cell with a comment: the comment's paragraph does not reach the value *)
+Example ods_cell_comment_example :
+  ods_cell_value pint0 pflt0
+    (Elem TABLE_CELL [(ATTR_VALUE_TYPE, s "string")] []
+          [Elem OFFICE_ANNOTATION [] [] [ET TEXT_P (s "a comment")] []; ET TEXT_P (s "value")] [])
+  = Some (VStr (s "value")).
 Proof. vm_compute; reflexivity. Qed.
 
 Print Assumptions ods_plain_roundtrip.
@@ -539,3 +577,5 @@ Print Assumptions ods_repeat_cap_refuted.
 Print Assumptions ods_repeat_cap_witness.
 Print Assumptions ods_row_repeat_cap_witness.
 Print Assumptions pint0_dec.
+Print Assumptions ods_cell_comment_skipped.
+Print Assumptions ods_cell_comment_example.
